@@ -10,6 +10,83 @@ import ast
 from .known_funcs import KNOWN_PARAMS
 
 
+def _foldable_default(P, f, d):
+    """a default the body can be specialised on: a literal, or a module-level name (a sentinel object)"""
+    if isinstance(d, ast.Constant):
+        return True
+    if isinstance(d, ast.UnaryOp) and isinstance(d.operand, ast.Constant):
+        return True
+    if isinstance(d, ast.Name):
+        return d.id in f.module.const_nodes or d.id in f.module.imports
+    if isinstance(d, (ast.Tuple,)) and not d.elts:
+        return True
+    return False
+
+
+def specialise_new_defaults(P):
+    """A known function that grew a new trailing parameter with a default (a feature for new callers): no call in
+    the package passes it, so for every existing caller the parameter *is* its default.  The analyser's copy of
+    the function is specialised on that value (the parameter disappears from the signature, its uses become the
+    default expression); the rules then see the function the existing API calls.  If any call in the package
+    passes the new parameter, nothing is done."""
+    import copy
+    done = []
+    for q, f in list(P.funcs.items()):
+        known = KNOWN_PARAMS.get(q)
+        if known is None or f.parent is not None or f.module.is_tools:
+            continue
+        kpos, kkw = known
+        a = f.node.args
+        if a.posonlyargs or len(f.params) < len(kpos) or len(f.kwonly) < len(kkw):
+            continue
+        extra_pos = f.params[len(kpos):]
+        extra_kw = [k for k in f.kwonly if k not in kkw]
+        if not extra_pos and not extra_kw:
+            continue
+        if len(f.kwonly) - len(extra_kw) != len(kkw):
+            continue
+        dfl = f.defaults()
+        extra = extra_pos + extra_kw
+        if any(x not in dfl or not _foldable_default(P, f, dfl[x]) for x in extra):
+            continue
+        if any(isinstance(n, ast.Name) and n.id in extra and isinstance(n.ctx, (ast.Store, ast.Del)) for n in ast.walk(f.node)):
+            continue
+        # no call anywhere passes the new parameter(s)
+        n_old = len(kpos) - (1 if f.cls is not None and "staticmethod" not in f.decos else 0)
+        passed = False
+        for g in P.funcs.values():
+            for c in ast.walk(g.node):
+                if not isinstance(c, ast.Call):
+                    continue
+                nm = c.func.attr if isinstance(c.func, ast.Attribute) else (c.func.id if isinstance(c.func, ast.Name) else None)
+                if nm != f.name:
+                    continue
+                if any(k.arg in extra or k.arg is None for k in c.keywords) or len(c.args) > n_old or any(isinstance(x, ast.Starred) for x in c.args):
+                    passed = True
+        if passed:
+            continue
+        sub = {x: dfl[x] for x in extra}
+
+        class T(ast.NodeTransformer):
+            def visit_Name(self, n):
+                if isinstance(n.ctx, ast.Load) and n.id in sub:
+                    return ast.copy_location(copy.deepcopy(sub[n.id]), n)
+                return n
+        f.node.body = [T().visit(s_) for s_ in f.node.body]
+        if extra_pos:
+            a.args = a.args[:len(kpos)]
+            a.defaults = a.defaults[:len(a.defaults) - len(extra_pos)]
+            f.params = f.params[:len(kpos)]
+        if extra_kw:
+            pairs = [(k, d) for k, d in zip(a.kwonlyargs, a.kw_defaults) if k.arg not in extra_kw]
+            a.kwonlyargs = [k for k, _ in pairs]
+            a.kw_defaults = [d for _, d in pairs]
+            f.kwonly = [k.arg for k in a.kwonlyargs]
+        ast.fix_missing_locations(f.node)
+        done.append((q, extra))
+    return done
+
+
 def canonical_params(P):
     renamed = []
     kw_maps = {}  # function name -> {new keyword: old keyword}
